@@ -25,6 +25,10 @@ def _case(draw):
     ntx = [draw(st.integers(1, 3)) for _ in range(nthreads)]
     return {'client': draw(st.sampled_from(['tcp', 'tcp', 'rtu'])), 'ntx': ntx,
             'split': draw(st.lists(st.booleans(), min_size=12, max_size=12)),
+            # transmissions the peer answers by silently closing the connection (the client retries on a new connection)
+            'faults': draw(st.one_of(st.just([]), st.lists(st.sampled_from([False, False, False, True]), min_size=12, max_size=12))),
+            # transactions that are broadcast writes (unit 0, no reply expected)
+            'bcast': draw(st.one_of(st.just([]), st.lists(st.sampled_from([False, False, True]), min_size=12, max_size=12))),
             'schedule': draw(st.lists(st.integers(0, 3), min_size=8, max_size=120))}
 
 
@@ -59,10 +63,11 @@ def _enumerate(client, ntx, cap):
 
 
 class ReplyPeer(transports.Peer):
-    def __init__(self, framing, split):
+    def __init__(self, framing, split, faults=()):
         transports.Peer.__init__(self)
         self.framing = framing
         self.split = split
+        self.faults = list(faults)
         self.n = 0
         self.bad = []
 
@@ -74,6 +79,10 @@ class ReplyPeer(transports.Peer):
             self.bad.append((data, str(e)))
             return []
         kind, f = specpdu.decode('req', p['pdu'])
+        if kind != 'req:3':
+            return []                      # a broadcast write: nobody answers
+        if self.faults and self.faults[self.n % len(self.faults)]:
+            return [('close', 0.0)]        # the peer drops the request and closes the connection
         a, q = f['address'], f['quantity']
         reply = specpdu.encode('rsp:3', {'registers': [(a * 3 + i + 1000) & 0xFFFF for i in range(q)]})
         frame = refframe.build(self.framing, p['uid'], reply, p['tid'] or 0, 0)
@@ -87,23 +96,29 @@ def _run(case):
     from pymodbus.client.sync import ModbusTcpClient, ModbusSerialClient
     pm.reset_globals()
     framing = 'tcp' if case['client'] == 'tcp' else 'rtu'
-    peer = ReplyPeer(framing, case['split'])
+    peer = ReplyPeer(framing, case['split'], case.get('faults') or [])
+    bc = case.get('bcast') or []
+    kw = {'retries': 3, 'retry_on_empty': True, 'backoff': 0.01, 'broadcast_enable': bool(any(bc))}
     s = sched.Sched(case['schedule'])
     results = {}
     marks = []
     discs = []
     with transports.World(peer, scheduler=s) as w:
         if case['client'] == 'tcp':
-            client = ModbusTcpClient('peer', 502, timeout=1)
+            client = ModbusTcpClient('peer', 502, timeout=1, **kw)
         else:
-            client = ModbusSerialClient(method='rtu', port='/dev/null', timeout=1, baudrate=115200)
+            client = ModbusSerialClient(method='rtu', port='/dev/null', timeout=1, baudrate=115200, **kw)
         for t, n in enumerate(case['ntx']):
             def fn(t=t, n=n):
                 for j in range(n):
                     addr = t * 16 + j
                     qty = 1 + (t + j) % 4
                     w.log.append(('tx-begin', s.cur, (t, j)))
-                    r = client.read_holding_registers(addr, qty, unit=1 + t)
+                    if bc and bc[(t * 3 + j) % len(bc)]:
+                        r = client.write_register(addr, 7, unit=0)
+                        qty = 0
+                    else:
+                        r = client.read_holding_registers(addr, qty, unit=1 + t)
                     w.log.append(('tx-end', s.cur, (t, j)))
                     results[(t, j)] = (addr, qty, r)
             s.spawn('t%d' % t, fn)
@@ -135,9 +150,14 @@ def _run(case):
     # (c) every caller got its own reply
     if not discs:
         for (t, j), (addr, qty, r) in sorted(results.items()):
+            if qty == 0:
+                if not isinstance(r, bytes):
+                    discs.append(Disc('wrong-reply', '%s thread %d tx %d: broadcast write returned %r' % (case['client'], t, j, r)))
+                    break
+                continue
             want = [(addr * 3 + i + 1000) & 0xFFFF for i in range(qty)]
             got = getattr(r, 'registers', None)
-            if got != want:
+            if got != want and not _all_attempts_faulted(case):
                 discs.append(Disc('wrong-reply', '%s thread %d tx %d asked for %d registers at %d and got %r (expected %r); schedule %r' % (
                     case['client'], t, j, qty, addr, got if got is not None else r, want, s.taken[:60])))
                 break
@@ -145,8 +165,15 @@ def _run(case):
         if len(results) != total and not discs:
             discs.append(Disc('lost-call', '%d of %d calls returned' % (len(results), total)))
     pm.reset_globals()
-    return Outcome(discs, ['client:' + case['client'], 'threads:%d' % len(case['ntx'])] + (['lock-contended'] if s.blocked_someone else []),
+    return Outcome(discs, ['client:' + case['client'], 'threads:%d' % len(case['ntx'])] + (['lock-contended'] if s.blocked_someone else []) +
+                   (['faults'] if any(case.get('faults') or []) else []) + (['broadcast'] if any(bc) else []),
                    s.blocked_someone), s
+
+
+def _all_attempts_faulted(case):
+    # with generated faults a transaction may legitimately exhaust its retries: judged only when faults are sparse
+    f = case.get('faults') or []
+    return sum(1 for x in f if x) > 3
 
 
 def run_case(case):
